@@ -106,7 +106,10 @@ type tEv[R any] struct {
 	Snap   string
 	Err    error
 	CtxNil bool
+	NoMark bool // the context does not carry the value the subscription was made with
 }
+
+func c18NoMark(ctx context.Context) bool { return ctx == nil || ctx.Value(c18CtxKey{}) == nil }
 
 // tRec records what an observer of any R sees; snap must deep-copy the value into a string.
 type tRec[R any] struct {
@@ -123,17 +126,17 @@ func (r *tRec[R]) Observer() ro.Observer[R] {
 	return ro.NewObserverWithContext(
 		func(ctx context.Context, v R) {
 			s := r.snap(v)
-			r.Events = append(r.Events, tEv[R]{K: 'N', V: v, Snap: s, CtxNil: ctx == nil})
+			r.Events = append(r.Events, tEv[R]{K: 'N', V: v, Snap: s, CtxNil: ctx == nil, NoMark: c18NoMark(ctx)})
 			r.e.K.Log("tobs N " + c18Trunc(s, 48))
 			r.e.Yield()
 		},
 		func(ctx context.Context, err error) {
-			r.Events = append(r.Events, tEv[R]{K: 'E', Err: err, CtxNil: ctx == nil})
+			r.Events = append(r.Events, tEv[R]{K: 'E', Err: err, CtxNil: ctx == nil, NoMark: c18NoMark(ctx)})
 			r.e.K.Log("tobs E " + fmt.Sprint(err))
 			r.e.Yield()
 		},
 		func(ctx context.Context) {
-			r.Events = append(r.Events, tEv[R]{K: 'C', CtxNil: ctx == nil})
+			r.Events = append(r.Events, tEv[R]{K: 'C', CtxNil: ctx == nil, NoMark: c18NoMark(ctx)})
 			r.e.K.Log("tobs C")
 			r.e.Yield()
 		},
@@ -250,6 +253,18 @@ func c18Contract[R any](e *Env, rec *tRec[R], h *tSub, what string) bool {
 			e.Violate("C18", "ctx-nil", fmt.Sprintf("%s: callback #%d (%c) received a nil context; trace: %s", what, i, ev.K, rec.trace()))
 			break
 		}
+	}
+	for _, ev := range rec.Events {
+		if ev.NoMark && !ev.CtxNil {
+			e.Probe("c18-ctx-value-lost") // context propagation proper is C09's business
+			break
+		}
+	}
+	if len(e.Unhandled) > 0 {
+		// nothing in these scenarios may legitimately reach ro.OnUnhandledError: the recording observer
+		// never panics and handles every notification kind, so an entry means a panic was raised (and
+		// swallowed) inside the operator or its teardown
+		e.Violate("C18", "panic-swallowed", fmt.Sprintf("%s: ro.OnUnhandledError received %v", what, e.Unhandled))
 	}
 	if !h.Returned {
 		// a synchronous pipeline whose Subscribe never returns: outside C18's statement (C14)
@@ -714,7 +729,7 @@ func init() {
 			sc := &Scn{Family: "C18.io"}
 			sc.Sub = g.Pick("reader", "reader", "reader", "line", "line", "line", "writer", "writer", "csvr", "csvr", "csvw")
 			sc.SetInt("cseed", g.Intn(1<<30))
-			clen := g.PickInt(0, 1, 2, 5, 40, 100, 700, 1023, 1024, 1025, 1500, 2047, 2048, 2049, 3000, 4095, 4096, 4097, 5000, 9000)
+			clen := g.PickInt(0, 1, 2, 5, 40, 100, 700, 1023, 1024, 1025, 1500, 2047, 2048, 2049, 3000, 4095, 4096, 4097, 5000, 9000, 20000)
 			sc.SetInt("clen", clen)
 			switch sc.Sub {
 			case "reader", "line", "csvr":
